@@ -3,7 +3,11 @@ package props
 import (
 	"bytes"
 	"fmt"
+	"io/ioutil"
+	"os"
 	"path"
+	"path/filepath"
+	"sort"
 	"strings"
 
 	"github.com/akalin/gopar/par1"
@@ -18,9 +22,14 @@ import (
 // never modifies inputs; Verify modifies nothing.
 
 type c02Case struct {
-	Kind string  `json:"kind"` // "p2", "p1", "create2", "create1"
+	Kind string  `json:"kind"` // "p2", "p1", "create2", "create1", "disk"
 	P2   *p2Case `json:"p2,omitempty"`
 	P1   *p1Case `json:"p1,omitempty"`
+	// disk: the exported API on a real directory full of decoy files
+	Fmt   string `json:"fmt,omitempty"`
+	State string `json:"state,omitempty"` // intact, missing0, changed1, two, all, beyond
+	Op    string `json:"op,omitempty"`    // create, verify, repair, repairdc
+	Cwd   string `json:"cwd,omitempty"`   // set (relative paths), other (absolute paths)
 }
 
 var c02Extras = []string{"/d/unrelated.txt", "/d/sub/x.bin", "/d/s.par2.bak", "/d/s.vol00+01.par2.old", "/d/f0.orig", "/other/s.vol05+01.par2"}
@@ -152,6 +161,20 @@ func c02Gen(g *core.Gen) {
 			}
 		}
 	}
+	// the exported entry points on a REAL directory (the default filesystem seam itself is then part of what is
+	// checked), with decoy files whose names resemble temporary / backup / sibling names of every file involved
+	for _, f := range []string{"p2", "p1"} {
+		for _, op := range []string{"create", "verify", "repair", "repairdc"} {
+			for _, st := range []string{"intact", "missing0", "changed1", "two", "all", "beyond"} {
+				if op == "create" && st != "intact" {
+					continue
+				}
+				for _, cw := range []string{"set", "other"} {
+					g.Emit(&c02Case{Kind: "disk", Fmt: f, State: st, Op: op, Cwd: cw})
+				}
+			}
+		}
+	}
 	// Create: inputs untouched, only set files written
 	for _, s := range []int{4, 8} {
 		for _, a := range sizesGrid(s) {
@@ -261,6 +284,8 @@ func init() {
 				runP2(c.P2, r, p2Clauses{WriteOracle: true})
 			case "p1":
 				runP1(c.P1, r, p1Clauses{WriteOracle: true})
+			case "disk":
+				c02Disk(c, r)
 			default:
 				c02Create(c, r)
 			}
@@ -269,4 +294,178 @@ func init() {
 			}
 		},
 	})
+}
+
+var c02DiskSeq int
+
+// c02Disk runs one operation through the exported API on a real directory and compares byte snapshots of the
+// whole tree.
+func c02Disk(c *c02Case, r *core.Rec) {
+	c02DiskSeq++
+	root := filepath.Join(workerScratch(), fmt.Sprintf("c02d-%d", c02DiskSeq))
+	os.RemoveAll(root)
+	defer os.RemoveAll(root)
+	set := filepath.Join(root, "set")
+	os.MkdirAll(filepath.Join(set, "sub"), 0755)
+	os.MkdirAll(filepath.Join(root, "else"), 0755)
+	names := []string{"a.txt", "b.txt", "c.bin"}
+	sizes := []int{11, 6, 9}
+	var paths []string
+	var datas [][]byte
+	for i, n := range names {
+		p := filepath.Join(set, n)
+		d := scen.Content("uniq", r.Seed, i, sizes[i], 4)
+		ioutil.WriteFile(p, d, 0644)
+		paths = append(paths, p)
+		datas = append(datas, d)
+	}
+	ext := ".par2"
+	if c.Fmt == "p1" {
+		ext = ".par"
+	}
+	index := filepath.Join(set, "s"+ext)
+	mk := func() error {
+		if c.Fmt == "p2" {
+			return par2.Create(index, paths, par2.CreateOptions{SliceByteCount: 4, NumParityShards: 3, NumGoroutines: 2})
+		}
+		return par1.Create(index, paths, par1.CreateOptions{NumParityFiles: 2})
+	}
+	var setFiles []string
+	if c.Op != "create" {
+		if err := mk(); err != nil {
+			r.Violatef("setup-create-failed:"+errClass(err), "%v", err)
+			return
+		}
+		ents, _ := ioutil.ReadDir(set)
+		for _, e := range ents {
+			if strings.HasPrefix(e.Name(), "s.") {
+				setFiles = append(setFiles, e.Name())
+			}
+		}
+	} else {
+		setFiles = []string{"s" + ext, "s.vol00+01.par2", "s.vol01+02.par2", "s.p01", "s.p02", "s.p03"}
+	}
+	// decoys: look-alike names next to every file that is read or written
+	decoyBases := append(append([]string{}, names...), setFiles...)
+	for i, b := range decoyBases {
+		for j, pat := range []string{"%s.tmp", "%s~", ".%s.swp", "%s.bak", "%s.new", "%s.part", "#%s#", "%s.0", ".%s.tmp"} {
+			ioutil.WriteFile(filepath.Join(set, fmt.Sprintf(pat, b)), scen.Garbage(r.Seed, 900+i*16+j, 5+j), 0644)
+		}
+	}
+	ioutil.WriteFile(filepath.Join(set, "sub", "a.txt"), []byte("other a"), 0644)
+	ioutil.WriteFile(filepath.Join(set, "notes.txt"), []byte("notes"), 0644)
+	ioutil.WriteFile(filepath.Join(root, "else", "a.txt"), []byte("outside a"), 0644)
+	ioutil.WriteFile(filepath.Join(root, "a.txt"), []byte("parent a"), 0644)
+	switch c.State {
+	case "missing0":
+		os.Remove(paths[0])
+	case "changed1":
+		b := append([]byte{}, datas[1]...)
+		b[0] ^= 0x80
+		ioutil.WriteFile(paths[1], b, 0644)
+	case "two":
+		os.Remove(paths[2])
+		ioutil.WriteFile(paths[0], append([]byte{0xEE}, datas[0]...), 0644)
+	case "all":
+		if c.Fmt == "p2" {
+			os.Remove(paths[0]) // 3 slices = 3 blocks
+		} else {
+			os.Remove(paths[0])
+			os.Remove(paths[1]) // 2 files = 2 volumes
+		}
+	case "beyond":
+		for _, p := range paths {
+			os.Remove(p)
+		}
+	}
+	cwd := set
+	arg := "s" + ext
+	if c.Cwd == "other" {
+		cwd = filepath.Join(root, "else")
+		arg = index
+	}
+	old, _ := os.Getwd()
+	os.Chdir(cwd)
+	before := snapTree(root)
+	var err error
+	var listed []string
+	pi := core.Catch(func() {
+		switch {
+		case c.Op == "create":
+			in := paths
+			if c.Cwd == "set" {
+				in = names
+			}
+			if c.Fmt == "p2" {
+				err = par2.Create(arg, in, par2.CreateOptions{SliceByteCount: 4, NumParityShards: 3, NumGoroutines: 2})
+			} else {
+				err = par1.Create(arg, in, par1.CreateOptions{NumParityFiles: 3})
+			}
+		case c.Op == "verify" && c.Fmt == "p2":
+			_, err = par2.Verify(arg, par2.VerifyOptions{NumGoroutines: 2})
+		case c.Op == "verify":
+			_, err = par1.Verify(arg, par1.VerifyOptions{VerifyAllData: true})
+		case c.Fmt == "p2":
+			res, e := par2.Repair(arg, par2.RepairOptions{NumGoroutines: 2, DoubleCheck: c.Op == "repairdc"})
+			err, listed = e, res.RepairedPaths
+		default:
+			res, e := par1.Repair(arg, par1.RepairOptions{DoubleCheck: c.Op == "repairdc"})
+			err, listed = e, res.RepairedPaths
+		}
+	})
+	os.Chdir(old)
+	after := snapTree(root)
+	r.AddStates(1)
+	r.AddTransitions(1)
+	if pi != nil {
+		r.Violate(c.Op+"-panic:"+pi.Frame, pi.Value+"\n"+pi.Stack)
+		return
+	}
+	r.Outcome(fmt.Sprintf("disk %s %s %s %s", c.Fmt, c.Op, c.State, errClass(err)))
+	orig := map[string][]byte{}
+	for i, p := range paths {
+		orig[p] = datas[i]
+	}
+	isListed := func(p string) bool {
+		for _, l := range listed {
+			al := l
+			if !filepath.IsAbs(al) {
+				al = filepath.Join(cwd, al)
+			}
+			if filepath.Clean(al) == p {
+				return true
+			}
+		}
+		return false
+	}
+	changed := diffTree(before, after)
+	sort.Strings(changed)
+	for _, p := range changed {
+		_, existed := before[p]
+		now, exists := after[p]
+		switch c.Op {
+		case "verify":
+			r.Violatef("verify-modified-directory", "Verify (real directory) changed %s", p)
+		case "create":
+			isSet := filepath.Dir(p) == set && strings.HasPrefix(filepath.Base(p), "s.") && !existed
+			if !isSet {
+				r.Violatef("create-changed-other-file", "Create (real directory) created/modified/removed %s", p)
+			}
+		default:
+			want, prot := orig[p]
+			if !prot {
+				r.Violatef("repair-changed-other-file", "Repair (real directory) created/modified/removed %s, which is not a protected file", p)
+				continue
+			}
+			if !exists || now != string(want) {
+				r.Violatef("repair-wrote-wrong-bytes", "Repair (real directory) left %s with content that is not the protected content", p)
+			}
+			if !isListed(p) {
+				r.Violatef("repair-write-not-listed", "Repair (real directory) rewrote %s but did not list it (%v)", p, listed)
+			}
+		}
+	}
+	if len(changed) > 0 || err != nil {
+		r.NontrivialCase()
+	}
 }
